@@ -3,6 +3,7 @@
 import os, re, json, random, subprocess, collections, copy
 import o2olib as L
 import gen
+import genwf
 import rt
 
 PROPS = {
@@ -372,6 +373,48 @@ def oracle_c17(cases, seed, thorough):
                 fails.append({"source": src[i], "what": "impl item does not hold exactly the required method (+ Error type for fallible traits)", "detail": it})
                 break
     return fails, n
+
+
+def rustc_parse_errors(texts, tag):
+    """texts: list of Rust source fragments (sequences of items). Returns {index: first parse error}; each fragment sits in
+    a module of its own that is configured out, so it is parsed but neither resolved nor type-checked"""
+    d = os.path.join(L.WORK, "parsecheck")
+    os.makedirs(d, exist_ok=True)
+    path = os.path.join(d, f"pc_{tag}.rs")
+    with open(path, "w") as f:
+        for k, t in enumerate(texts):
+            f.write(f"#[cfg(any())] mod m{k} {{ " + t.replace("\n", " ") + " }\n")
+    r = subprocess.run(["rustc", "--edition", "2021", "--crate-type", "lib", "--emit=metadata", "--error-format=short", "-o", os.path.join(d, f"pc_{tag}.rmeta"), path],
+                       stdout=subprocess.PIPE, stderr=subprocess.STDOUT, text=True, env=L.ENV)
+    bad = {}
+    for line in r.stdout.split("\n"):
+        m = re.match(r".*pc_\w+\.rs:(\d+):\d+: error(?:\[E\d+\])?: (.*)", line)
+        if m:
+            bad.setdefault(int(m.group(1)) - 1, m.group(2))
+    if r.returncode != 0 and not bad:
+        raise RuntimeError("syntax oracle: rustc failed without a located error: " + r.stdout[-800:])
+    return bad
+
+
+def oracle_c17_syntax(cases, seed, thorough):
+    """rustc's own parser on every accepted expansion, the randomly generated inputs included: the expansion is pasted
+    into a module that is configured out (`#[cfg(any())] mod m { .. }`), so it must be syntactically valid Rust but is
+    neither resolved nor type-checked — exactly the `well-formed` half of C17 that needs no premise on the input"""
+    fails = []
+    # domain: the repository's own derive inputs + inputs consistent by construction (tools/genwf.py): member names agree
+    # in kind with the counterpart's shape, parameters are used where the documentation gives them a meaning
+    cases = [c for c in cases if re.match(r"^(t|u#|r#|k|d)", c[0]) and not c[0].startswith("tree") and not c[0].startswith("trait")]
+    cases += [(it.meta["id"], gen.render(it)) for it in genwf.gen_consistent(seed, 2500 if not thorough else 20000)]
+    outs = expand("s1", cases)
+    src = dict(cases)
+    ids = [i for i, _ in cases if outs[i][0] == "OK"]
+    if not ids:
+        return fails, 0
+    bad = rustc_parse_errors([L.pretty_tokens(outs[i][1]) for i in ids], str(seed))
+    for k, msg in sorted(bad.items()):
+        i = ids[k]
+        fails.append({"source": src[i], "what": "accepted input expands to tokens rustc cannot parse: " + msg[:120]})
+    return fails, len(ids)
 
 
 def expected_impls(it):
@@ -894,6 +937,7 @@ FAULTS = [
     ("repeat-param-conflict", "will be overriden. Did you forget to use 'skip_repeat'?"),
     ("tuple-named-no-name", "should specify corresponding field name of the Zq7"),
     ("untyped-nested-parent", "Field 'zq_t' should have type here"),
+    ("update-into-existing", "Struct update syntax '..' is not applicable to 'into_existing' instructions"),
 ]
 
 
@@ -1009,6 +1053,10 @@ def inject_fault(it, kind, r):
                           "[parent([parent([parent(zq_l)] zq_t)] zq_t: ZqT)] zq_t: ZqU",
                           "zq_a, [parent(zq_b, [parent(zq_l)] zq_t)] zq_m: ZqT, zq_c"])
         f.attrs.insert(r.randrange(len(f.attrs) + 1), gen.Instr("parent", c + "| " + shape))
+    elif kind == "update-into-existing":
+        c = "Zq9"
+        nm = r.choice(["into_existing", "owned_into_existing", "ref_into_existing", "try_into_existing", "owned_try_into_existing"])
+        it2.attrs.insert(r.randrange(len(it2.attrs) + 1), gen.Instr(nm, c + (", String" if "try" in nm else "") + " | " + r.choice(["", "attribute(inline), "]) + "..zq_base()", tag=("trait", c)))
     elif kind == "repeat-param-conflict":
         # a repeat template that covers a parameter kind, followed by an instruction of the same name that sets that
         # parameter itself without `skip_repeat` (whether or not the template sets it)
@@ -1042,7 +1090,7 @@ def oracle_c15(cases, seed, thorough):
         removers = ("no-trait-instr", "dup-default-where", "dup-default-ghosts", "ghost-no-default", "child-no-parents")
         ks.sort(key=lambda k: 0 if k[0] in removers else 1)
         names2 = [k[0] for k in ks]
-        if len(ks) == 2 and "no-trait-instr" in names2 and any(x in ("dup-instr", "missing-err", "extra-err", "ghost-no-default", "child-no-parents", "repeat-param-conflict", "tuple-named-no-name", "untyped-nested-parent") for x in names2):
+        if len(ks) == 2 and "no-trait-instr" in names2 and any(x in ("dup-instr", "missing-err", "extra-err", "ghost-no-default", "child-no-parents", "repeat-param-conflict", "tuple-named-no-name", "untyped-nested-parent", "update-into-existing") for x in names2):
             ks = [k for k in ks if k[0] == "no-trait-instr"]
         if len(ks) == 2 and {ks[0][0], ks[1][0]} == {"dup-default-where", "unknown-cpart-where"}:
             ks = ks[:1]
@@ -1335,10 +1383,13 @@ def run_oracle(prop, cases, results, seed, thorough, disagreements):
             out["name"] = "metamorphic: member-level, variant-level and trait-level repeat vs the harness's own written-out form on the real derive"
             out["failures"], out["evaluated"] = oracle_c14(cases, seed, thorough)
         elif prop == "C17":
-            out["name"] = "syn-2 `File` parse + shape inspection of the real output of every accepted case + runtime tie (designed programs with nested counterparts of mixed shapes must be accepted by rustc)"
+            out["name"] = "syn-2 `File` parse + shape inspection of the real output of every accepted case + rustc's parser on every accepted expansion (configured-out module) + runtime tie (designed programs with nested counterparts of mixed shapes must be accepted by rustc)"
             f17, n17 = oracle_c17(cases, seed, thorough)
             out["failures"] += f17
-            out["evaluated"] = n17 + out["runtime_tie"]["conversions_compared"]
+            f17s, n17s = oracle_c17_syntax(cases, seed, thorough)
+            out["failures"] += f17s
+            out["syntax_checked_by_rustc"] = n17s
+            out["evaluated"] = n17 + n17s + out["runtime_tie"]["conversions_compared"]
         elif prop == "C04":
             out["name"] = "impl headers of the real output (parsed with syn 2) vs the documented impl set of the instructions"
             out["failures"], out["evaluated"] = oracle_c04(cases, seed, thorough)
@@ -1396,6 +1447,8 @@ def replay_finding(prop, k):
         return "fails" if o[0] in ("ERR", "LIBERR") and any(exp["text"] in m for m in (o[1] if len(o) > 1 else [])) else "passes"
     if exp.get("outcome") == "ok-contains":
         return "fails" if o[0] == "OK" and exp["text"] in o[1] else "passes"
+    if exp.get("outcome") == "unparsable":
+        return "fails" if o[0] == "OK" and rustc_parse_errors([L.pretty_tokens(o[1])], "witness") else "passes"
     if exp.get("outcome") == "ok-count":
         return "fails" if o[0] == "OK" and o[1].count(exp["text"]) >= exp["min"] else "passes"
     return "n/a"
